@@ -1,0 +1,101 @@
+//go:build verif
+
+package hevc
+
+// Property C15 (agent c15): HEVC parameter sets, slice headers and configuration records.
+
+// ---------------------------------------------------------------- derived picture size (ISO/IEC 23008-2, 7.4.3.2.1 and Table 6-1)
+// SubWidthC / SubHeightC of Table 6-1 as functions of chroma_format_idc (0: 1,1; 1: 2,2; 2: 2,1; 3: 1,1).
+//@ spec subWidthC(idc byte) uint32 = ite(idc == 1 || idc == 2, uint32(2), uint32(1))
+//@ spec subHeightC(idc byte) uint32 = ite(idc == 1, uint32(2), uint32(1))
+// Cropped size: pic_width_in_luma_samples - SubWidthC * (conf_win_left_offset + conf_win_right_offset), same for the height.
+//@ func (*SPS).ImageSize
+//@   requires s != nil
+//@   ensures[C15] width == s.PicWidthInLumaSamples - subWidthC(s.ChromaFormatIDC) * (s.ConformanceWindow.LeftOffset + s.ConformanceWindow.RightOffset)
+//@   ensures[C15] height == s.PicHeightInLumaSamples - subHeightC(s.ChromaFormatIDC) * (s.ConformanceWindow.TopOffset + s.ConformanceWindow.BottomOffset)
+//@   assigns nothing
+
+// ---------------------------------------------------------------- configuration record built from parameter sets (ISO/IEC 14496-15, 8.3.3.1)
+// With includePS the record holds the three NAL unit lists verbatim (the caller's slices, in the order VPS, SPS, PPS, with
+// their NAL unit types 32, 33, 34). The copy of profile space/tier/idc, compatibility and constraint flags, level, chroma
+// format and bit depths from the parsed SPS (hevcdecoderconfigurationrecord.go:84-97) cannot be stated: a postcondition
+// cannot name the local `sps`, and these SPS fields are not at fixed positions of the raw NAL unit (emulation prevention
+// bytes are common inside profile_tier_level) -- NOT DECIDED, see the report.
+//@ func CreateHEVCDecConfRec
+//@   ensures[C15] result1 == nil ==> result0.ConfigurationVersion == 1 && result0.LengthSizeMinusOne == 3
+//@   ensures[C15] result1 == nil && includePS ==> len(result0.NaluArrays) == 3 && result0.NaluArrays[0].Nalus == vpsNalus && result0.NaluArrays[1].Nalus == spsNalus && result0.NaluArrays[2].Nalus == ppsNalus
+//@   ensures[C15] result1 == nil && includePS ==> result0.NaluArrays[0].completeAndType & 0x3f == 32 && result0.NaluArrays[1].completeAndType & 0x3f == 33 && result0.NaluArrays[2].completeAndType & 0x3f == 34
+//@   ensures[C15] result1 == nil && !includePS ==> len(result0.NaluArrays) == 0
+
+// ---------------------------------------------------------------- HEVCDecoderConfigurationRecord (ISO/IEC 14496-15, 8.3.3.1.2)
+// Layout of the 23 fixed bytes: [0] configurationVersion = 1; [1] general_profile_space(2) general_tier_flag(1)
+// general_profile_idc(5); [2..5] general_profile_compatibility_flags; [6..11] general_constraint_indicator_flags(48);
+// [12] general_level_idc; [13..14] 1111 min_spatial_segmentation_idc(12); [15] 111111 parallelismType(2);
+// [16] 111111 chroma_format_idc(2); [17] 11111 bit_depth_luma_minus8(3); [18] 11111 bit_depth_chroma_minus8(3);
+// [19..20] avgFrameRate; [21] constantFrameRate(2) numTemporalLayers(3) temporalIdNested(1) lengthSizeMinusOne(2);
+// [22] numOfArrays; then per array: array_completeness(1) 0 NAL_unit_type(6), numNalus(16), per NAL unit: length(16) + bytes.
+
+// ErrLengthSize is initialised with errors.New (hevcdecoderconfigurationrecord.go:13) and never assigned again.
+//@ axiom ErrLengthSize != nil
+
+// Decoder: every field of the fixed part is the field of the standard's layout of the input bytes.
+//@ func DecodeHEVCDecConfRec
+//@   ensures[C15] result1 == nil ==> len(data) >= 23 && data[0] == 1 && result0.ConfigurationVersion == 1
+//@   ensures[C15] result1 == nil ==> result0.GeneralProfileSpace == data[1] >> 6 && result0.GeneralTierFlag == ((data[1] >> 5) & 1 == 1) && result0.GeneralProfileIDC == data[1] & 0x1f
+//@   ensures[C15] result1 == nil ==> result0.GeneralProfileCompatibilityFlags == be32(data, 2) && result0.GeneralConstraintIndicatorFlags == uint64(be32(data, 6)) << 16 | uint64(be16(data, 10)) && result0.GeneralLevelIDC == data[12]
+//@   ensures[C15] result1 == nil ==> result0.MinSpatialSegmentationIDC == be16(data, 13) & 0x0fff && result0.ParallellismType == data[15] & 3
+//@   ensures[C15] result1 == nil ==> result0.ChromaFormatIDC == data[16] & 3 && result0.BitDepthLumaMinus8 == data[17] & 7 && result0.BitDepthChromaMinus8 == data[18] & 7
+//@   ensures[C15] result1 == nil ==> result0.AvgFrameRate == be16(data, 19) && result0.ConstantFrameRate == data[21] >> 6 && result0.NumTemporalLayers == (data[21] >> 3) & 7 && result0.TemporalIDNested == (data[21] >> 2) & 1 && result0.LengthSizeMinusOne == 3 && data[21] & 3 == 3
+//@   ensures[C15] result1 == nil ==> len(result0.NaluArrays) == int(data[22])
+//@   loop 1 invariant 0 <= j && j <= int(numArrays) && len(hdcr.NaluArrays) == j && srInv(sr) && sr.slice == data && (sr.err == nil ==> numArrays == data[22])
+//@   loop 1 invariant sr.err == nil ==> len(data) >= 23
+//@   loop 2 invariant 0 <= j && j < int(numArrays) && len(hdcr.NaluArrays) == j && srInv(sr) && sr.slice == data && (sr.err == nil ==> numArrays == data[22])
+//@   loop 2 invariant sr.err == nil ==> len(data) >= 23
+// The first array's header and its first NAL unit are the bytes at their positions in the record (verbatim, as a sub-slice of
+// data). A statement about ALL units needs induction over slices grown by append (not available in the engine).
+//@ pred hvccFirst(na NaluArray, data []byte) = na.completeAndType == data[23] && len(na.Nalus) == int(be16(data, 24)) && (len(na.Nalus) >= 1 ==> na.Nalus[0] == data[28:28+int(be16(data, 26))])
+//@ func DecodeHEVCDecConfRec
+//@   ensures[C15] result1 == nil && len(result0.NaluArrays) >= 1 ==> hvccFirst(result0.NaluArrays[0], data)
+//@   loop 1 invariant sr.err == nil && j == 0 ==> sr.pos == 23
+//@   loop 1 invariant sr.err == nil && j >= 1 ==> hvccFirst(hdcr.NaluArrays[0], data)
+//@   loop 2 invariant sr.err == nil && j >= 1 ==> hvccFirst(hdcr.NaluArrays[0], data)
+//@   loop 2 invariant 0 <= i && i <= numNalus
+//@   loop 2 invariant sr.err == nil && j == 0 ==> array.completeAndType == data[23] && numNalus == int(be16(data, 24)) && len(array.Nalus) == i && (i == 0 ==> sr.pos == 26) && (i >= 1 ==> array.Nalus[0] == data[28:28+int(be16(data, 26))])
+//@   loop 2 invariant j >= 1 && len(hdcr.NaluArrays[0].Nalus) >= 1 ==> ref(array.Nalus) != ref(hdcr.NaluArrays[0].Nalus)
+
+// Encoder: the complete output as a trace of chunks (vocabulary of C01/C03: chU(width, value), chBytes(slice)): the fixed
+// part with the reserved bits set to one, then every array header and every NAL unit verbatim after its 16-bit length.
+//@ spec rec naluTr(ns [][]byte, n int, t uint64) uint64 = ite(n <= 0, t, trApp(trApp(naluTr(ns, n-1, t), chU(16, uint64(uint16(len(ns[n-1]))))), chBytes(ns[n-1])))
+//@ spec arrHdr(na NaluArray, t uint64) uint64 = trApp(trApp(t, chU(8, uint64(na.completeAndType))), chU(16, uint64(uint16(len(na.Nalus)))))
+//@ spec rec arrTr(as []NaluArray, n int, t uint64) uint64 = ite(n <= 0, t, naluTr(as[n-1].Nalus, len(as[n-1].Nalus), arrHdr(as[n-1], arrTr(as, n-1, t))))
+//@ spec hvccB1(h *DecConfRec) byte = h.GeneralProfileSpace<<6 | ite(h.GeneralTierFlag, byte(0x20), byte(0)) | h.GeneralProfileIDC
+//@ spec hvccP1(h *DecConfRec, t uint64) uint64 = trApp(trApp(trApp(trApp(trApp(t, chU(8, uint64(h.ConfigurationVersion))), chU(8, uint64(hvccB1(h)))), chU(32, uint64(h.GeneralProfileCompatibilityFlags))), chU(48, h.GeneralConstraintIndicatorFlags & 0xffffffffffff)), chU(8, uint64(h.GeneralLevelIDC)))
+//@ spec hvccP2(h *DecConfRec, t uint64) uint64 = trApp(trApp(trApp(trApp(trApp(t, chU(16, uint64(0xf000 | h.MinSpatialSegmentationIDC))), chU(8, uint64(0xfc | h.ParallellismType))), chU(8, uint64(0xfc | h.ChromaFormatIDC))), chU(8, uint64(0xf8 | h.BitDepthLumaMinus8))), chU(8, uint64(0xf8 | h.BitDepthChromaMinus8)))
+//@ spec hvccP3(h *DecConfRec, t uint64) uint64 = trApp(trApp(trApp(t, chU(16, uint64(h.AvgFrameRate))), chU(8, uint64(h.ConstantFrameRate<<6 | h.NumTemporalLayers<<3 | h.TemporalIDNested<<2 | h.LengthSizeMinusOne))), chU(8, uint64(byte(len(h.NaluArrays)))))
+//@ spec hvccPre(h *DecConfRec, t uint64) uint64 = hvccP3(h, hvccP2(h, hvccP1(h, t)))
+//@ spec hvccTr(h *DecConfRec, t uint64) uint64 = arrTr(h.NaluArrays, len(h.NaluArrays), hvccPre(h, t))
+
+//@ func (*DecConfRec).EncodeSW
+//@   uses C01
+//@   ensures[C15] result == nil ==> ghost(sw).tr == hvccTr(h, old(ghost(sw).tr))
+//@   loop 1 invariant sw.(*bits.FixedSliceWriter).accError == nil ==> ghost(sw).tr == arrTr(h.NaluArrays, idx(1), hvccPre(h, old(ghost(sw).tr)))
+//@   loop 2 invariant sw.(*bits.FixedSliceWriter).accError == nil ==> ghost(sw).tr == naluTr(h.NaluArrays[idx(1)].Nalus, idx(2), arrHdr(h.NaluArrays[idx(1)], arrTr(h.NaluArrays, idx(1), hvccPre(h, old(ghost(sw).tr)))))
+
+// ---------------------------------------------------------------- profile_tier_level(1, maxNumSubLayersMinus1), general part (ISO/IEC 23008-2, 7.3.3)
+// Entered byte-aligned (as in seq_parameter_set_rbsp after the first payload byte), the general fields are the fixed-position
+// fields of the twelve payload bytes d[p..p+11] (payload = output of the standard's emulation prevention decoder, ghost rpay):
+// [p] general_profile_space(2) general_tier_flag(1) general_profile_idc(5); [p+1..p+4] compatibility flags;
+// [p+5..p+10] the 48 constraint/reserved bits (progressive, interlaced, non-packed, frame-only are bits 47..44);
+// [p+11] general_level_idc.
+//@ pred ptlGen(ptl ProfileTierLevel, d [1099511627776]byte, p int) = ptl.GeneralProfileSpace == d[p] >> 6 && ptl.GeneralTierFlag == ((d[p] >> 5) & 1 == 1) && ptl.GeneralProfileIDC == d[p] & 0x1f && ptl.GeneralProfileCompatibilityFlags == uint32(rdBytes(d, p+1, 4)) && ptl.GeneralConstraintIndicatorFlags == uint64(rdB(d, p+5, 6)) && ptl.GeneralLevelIDC == d[p+11]
+//@ pred ptlFlags(ptl ProfileTierLevel, d [1099511627776]byte, p int) = ptl.GeneralProgressiveSourceFlag == (d[p+5] & 0x80 != 0) && ptl.GeneralInterlacedSourceFlag == (d[p+5] & 0x40 != 0) && ptl.GeneralNonPackedConstraintFlag == (d[p+5] & 0x20 != 0) && ptl.GeneralFrameOnlyConstraintFlag == (d[p+5] & 0x10 != 0)
+//@ pred ptlIn(r *bits.EBSPReader, profilePresentFlag bool) = erInv(r) && r.n == 0 && r.err == nil && profilePresentFlag
+//@ func parseProfileTierLevel
+//@   uses C13, C15
+//@   ensures[C15] old(ptlIn(r, profilePresentFlag)) && r.err == nil ==> ptlGen(result, ghost(r.rd).rpay, old(ghost(r.rd).rplen)) && ptlFlags(result, ghost(r.rd).rpay, old(ghost(r.rd).rplen))
+//@   loop 1 invariant old(ptlIn(r, profilePresentFlag)) && r.err == nil ==> erInv(r) && ghost(r.rd).rplen >= old(ghost(r.rd).rplen) + 12 && ptlGen(ptl, ghost(r.rd).rpay, old(ghost(r.rd).rplen)) && ptlFlags(ptl, ghost(r.rd).rpay, old(ghost(r.rd).rplen))
+//@   loop 2 invariant old(ptlIn(r, profilePresentFlag)) && r.err == nil ==> erInv(r) && ghost(r.rd).rplen >= old(ghost(r.rd).rplen) + 12
+//@   loop 2 invariant old(ptlIn(r, profilePresentFlag)) && r.err == nil ==> ptl.GeneralProfileSpace == ghost(r.rd).rpay[old(ghost(r.rd).rplen)] >> 6 && ptl.GeneralTierFlag == ((ghost(r.rd).rpay[old(ghost(r.rd).rplen)] >> 5) & 1 == 1) && ptl.GeneralProfileIDC == ghost(r.rd).rpay[old(ghost(r.rd).rplen)] & 0x1f && ptl.GeneralLevelIDC == ghost(r.rd).rpay[old(ghost(r.rd).rplen)+11]
+//@   loop 2 invariant old(ptlIn(r, profilePresentFlag)) && r.err == nil ==> ptl.GeneralProfileCompatibilityFlags == uint32(rdBytes(ghost(r.rd).rpay, old(ghost(r.rd).rplen)+1, 4))
+//@   loop 2 invariant old(ptlIn(r, profilePresentFlag)) && r.err == nil ==> ptl.GeneralConstraintIndicatorFlags == uint64(rdB(ghost(r.rd).rpay, old(ghost(r.rd).rplen)+5, 6))
+//@   loop 2 invariant old(ptlIn(r, profilePresentFlag)) && r.err == nil ==> ptlFlags(ptl, ghost(r.rd).rpay, old(ghost(r.rd).rplen))
